@@ -2,7 +2,7 @@
    Print Assumptions.  Costs are integers (dyadic floats scaled by 2^30; 2^-26 is 16). *)
 From Coq Require Import ZArith List Bool.
 From Centro Require Import Base.Sx Model.Lapjv Spec.Lapjv Proofs.LapjvCert Proofs.LapjvRefute Proofs.LapjvTrack
-  Proofs.LapjvPhases Proofs.LapjvAbstract Proofs.LapjvGrid Proofs.LapjvArr Proofs.LapjvRows Proofs.LapjvTrackCost Proofs.LapjvRt Proofs.LapjvHall Proofs.LapjvBsearch Proofs.LapjvTrackLink.
+  Proofs.LapjvPhases Proofs.LapjvAbstract Proofs.LapjvGrid Proofs.LapjvArr Proofs.LapjvRows Proofs.LapjvTrackCost Proofs.LapjvRt Proofs.LapjvHall Proofs.LapjvBsearch Proofs.LapjvTrackLink Proofs.LapjvArrExt Proofs.LapjvExtModel Proofs.LapjvAugMarks Proofs.LapjvAugFlip.
 Import ListNotations.
 Open Scope Z_scope.
 
@@ -224,7 +224,39 @@ Theorem C01_phases123_inv : forall n tri,
 Proof. exact phases123_inv. Qed.
 Print Assumptions C01_phases123_inv.
 
-(* Hall-type block (needed for the -inf price case of phase 3, which is NOT yet connected): m+1 rows whose
+(* Phases 1-3 WITHOUT the ">= 2 candidates per row" restriction, under has_PM.  InvE n rows x y v: lengths n; every
+   price is finite or -inf; every row assigned in y sits on a listed column which is minimal among its finite-priced
+   candidates, x[y[j]] = j; a row sitting on a -inf column lists only -inf columns; a -inf column is assigned.
+   That a free row always keeps a finite-priced candidate is the Hall argument (C01_hall_block via has_PM). *)
+Theorem C01_arr_passes_inv_ext : forall n tri,
+  (forall t, In t tri -> (t_i t < n)%nat /\ (t_j t < n)%nat) -> NoDup (map fst tri) -> has_PM n tri ->
+  forall epsr fuel k x y v ii x' y' v' ii', 0 <= epsr ->
+  InvE n (rows_of n tri) x y v -> Pending n y ii ->
+  arr_passes k fuel (Fin 0) (Fin epsr) n (rows_of n tri) (x, y, v, ii) = Some (x', y', v', ii') ->
+  InvE n (rows_of n tri) x' y' v' /\ Pending n y' ii'.
+Proof. exact arr_passes_inv_ext_model. Qed.
+Print Assumptions C01_arr_passes_inv_ext.
+
+Theorem C01_phases123_inv_ext : forall n tri,
+  (forall t, In t tri -> (t_i t < n)%nat /\ (t_j t < n)%nat) ->
+  NoDup (map fst tri) ->
+  (forall j, (j < n)%nat -> exists t, In t tri /\ t_j t = j) ->
+  has_PM n tri ->
+  forall epsr fuel k x y v ii, 0 <= epsr ->
+  let rows := rows_of n tri in
+  let mi := min_i n tri in
+  let x0 := x_init n mi in
+  let y0 := y_init n x0 in
+  let uv := reduction_transfer Fixed n rows (jflat_of rows) x0 (one_rows n mi) (repeat (Fin 0) n) (v_init n tri) in
+  match free_rows n mi with
+  | [] => Some (x0, y0, snd uv, free_rows n mi)
+  | _ => arr_passes k fuel (Fin 0) (Fin epsr) n rows (x0, y0, snd uv, free_rows n mi)
+  end = Some (x, y, v, ii) ->
+  InvE n rows x y v /\ Pending n y ii.
+Proof. exact phases123_inv_ext. Qed.
+Print Assumptions C01_phases123_inv_ext.
+
+(* Hall-type block (used by C01_arr_passes_inv_ext through Proofs.LapjvExtModel.noblock_model): m+1 rows whose
    candidates all lie within m columns exclude a perfect matching. *)
 Theorem C01_hall_block : forall n tri (L C : list nat),
   NoDup L -> (forall i, In i L -> (i < n)%nat) ->
@@ -256,6 +288,38 @@ Theorem C01_final_u_defined : forall n tri v, NoDup (map fst tri) -> forall x,
   exists u, final_u (rows_of n tri) x v = Some u /\ length u = n.
 Proof. exact final_u_defined. Qed.
 Print Assumptions C01_final_u_defined.
+
+(* Phase 4, C19-facing (importable from Proofs.LapjvAugMarks / Proofs.LapjvAugFlip).
+   aug_marks_inv: for one free row r, whatever stamps earlier rows left: whenever the `while True` loop of augment
+   returns, to_do is duplicate-free with columns < n (so n_to_do <= n at every write p_to_do[n_to_do]); ready ++ scan is
+   duplicate-free with columns < n (so n_ready + (up - low) <= n at every write p_scan[up], p_ready[n_ready]); the done /
+   on_to_do arrays keep length n; the exit column is < n and unassigned.  The loop invariant itself (stamps consistent with
+   the lists at every loop head) is Proofs.LapjvAugMarks.aug_loop_marks with Marks. *)
+Theorem C01_aug_marks_inv : forall (r n : nat) (rows : list (list (nat * ext))) (y : list nat) (v : list ext) (inf : ext),
+  (forall i j c, In (j, c) (row rows i) -> (j < n)%nat) ->
+  (forall i, NoDup (map fst (row rows i))) ->
+  forall (ms : main_state) (s' : aug_state) (j1 : nat),
+  length (m_done ms) = n -> length (m_ontodo ms) = n ->
+  let row_r := rowget rows r in
+  let '(d, ontodo, pred) := aug_init_row r v row_r (repeat inf n) (m_ontodo ms) (m_pred ms) in
+  aug_loop (S (S n)) r n inf rows y v (mkAug d pred (m_done ms) ontodo (map fst row_r) [] [] inf) = Some (s', j1) ->
+  Bounds n s' /\ (length (g_todo s') <= n)%nat /\ (length (g_ready s') + length (g_scan s') <= n)%nat /\
+  (j1 < n)%nat /\ getn y j1 n = n.
+Proof. exact aug_marks_inv. Qed.
+Print Assumptions C01_aug_marks_inv.
+
+(* aug_flip_chain: given that the predecessor links from the exit column form a chain of distinct rows < n ending in the
+   free row r (chain_ok), the path-flipping loop terminates within |chain| iterations, uses only indices < n, keeps the
+   lengths of x and y, leaves the x of rows outside the chain alone and assigns the first row of the chain to the exit
+   column.  _partial: that aug_loop's pred array always yields such a chain (pred[j] = r or a row y[j'] with j' earlier in
+   `ready`), and aug_scan_nonempty (a rebuild of scan under has_PM finds a column: an augmenting path exists) are NOT
+   proved; with them and the Dijkstra distance invariant lapjv_fixed_cert would follow. *)
+Theorem C01_aug_flip_chain_partial : forall (r n : nat) (pred chain : list nat) (j1 : nat) (x y : list nat) (fuel : nat),
+  NoDup chain -> length x = n -> length y = n -> chain_ok r n pred x j1 chain -> (length chain <= fuel)%nat ->
+  exists x' y', aug_flip fuel r pred j1 x y n = Some (x', y') /\ length x' = n /\ length y' = n /\
+    (forall i, ~ In i chain -> getn x' i n = getn x i n) /\ getn x' (hd r chain) n = j1.
+Proof. exact aug_flip_chain. Qed.
+Print Assumptions C01_aug_flip_chain_partial.
 
 (* tracker identity with the scaling link: integer costs z = q * s (s > 0) of rational costs q that vanish on the
    diagonal, are non-negative, and positive off the diagonal in the m object rows; and the match cost of
